@@ -572,7 +572,9 @@ func engineRun(prop string, profile engineProfile, orc engineOracle, hangIsViola
 	return func(c *Ctx, idx int) CaseResult {
 		r := gen.Rand(c.Seed, prop, idx)
 		ec := profile(r, idx, c.Tier)
-		if idx%32 == 9 || (prop == "C06" && idx%12 == 9) {
+		// C06: a quarter of the box cases in which a gating group (pre-checks, continuous checks) fails
+		c06Gate := prop == "C06" && idx < 486 && idx%4 == 1 && (((idx%243)/3)%3 == 2 || ((idx%243)/9)%3 == 2)
+		if idx%32 == 9 || c06Gate {
 			cosmosify(ec)
 		}
 		if ec.RacingStarts > 1 && c.Emit != nil {
@@ -782,7 +784,7 @@ func init() {
 	})
 	register(&Prop{
 		ID: "C06", Level: "exploration", Batch: 30, PerCaseTimeout: 70 * time.Second,
-		Rule:  "cases 0..485: bounded-exhaustive box — every subset of the five check groups x every pass/fail assignment (3^5=243) at plan level and at block level on a 1-block/2-sequence skeleton; cases >= 486: PRNG(seed,i) plans with bypass failure probability 0.5 and pre/cont failure 0.3, every 15th of them explores every crash point of a plan whose gate (bypass passed / pre-checks or the initial continuous run failed) is decided while the other gating group is still executing, with checks that in half of the plans answer differently after the restart, and requires that a gate durably decided at the crash is not taken again; distinct by final-status hash",
+		Rule:  "cases 0..485: bounded-exhaustive box — every subset of the five check groups x every pass/fail assignment (3^5=243) at plan level and at block level on a 1-block/2-sequence skeleton; a quarter of the box cases with a failing pre or continuous group (and every 32nd case) run on the cosmosdb vault; cases >= 486: PRNG(seed,i) plans with bypass failure probability 0.5 and pre/cont failure 0.3, every 15th of them explores every crash point of a plan whose gate (bypass passed / pre-checks or the initial continuous run failed) is decided while the other gating group is still executing, with checks that in half of the plans answer differently after the restart, and requires that a gate durably decided at the crash is not taken again; distinct by final-status hash",
 		Cases: nCases(486+150, 486+5000),
 		Run: c06Dispatch(engineRun("C06", gateProfile, func(c *eng.Case, run *eng.Run, pr *eng.PlanRun, t *oracle.Trace, res *CaseResult) {
 			res.Viols = append(res.Viols, oracle.C06(pr.Spec, t, pr.P0)...)
